@@ -144,8 +144,8 @@ def molecules(ctx):
     """(name, mol) stream for the K streams."""
     rng = ctx.rng
     out = list(molgen.handmade())
-    out += [(t, molgen.parse(t)) for t in SYMMETRIC + STEREO_PAIRS + ISOTOPES + EXPLICIT_H_STEREO + ez_catalogue()
-            if molgen.parse(t) is not None]
+    out += [(t, molgen.parse(t)) for t in SYMMETRIC + STEREO_PAIRS + ISOTOPES + EXPLICIT_H_STEREO + ez_catalogue() + OLIGOMERS
+            + oligomers(rng, 30 if ctx.quick else 200) if molgen.parse(t) is not None]
     out += molgen.corpus(rng, 300 if ctx.quick else 1500)
     n_small = 5 if ctx.quick else 6
     graphs = [g for k in range(2, n_small + 1) for g in molgen.unlabeled_small_graphs(k)]
@@ -227,6 +227,11 @@ def correspond(ctx):
     from ..gen import pyx2py
     pyx2py.install()
     logging.getLogger('chython.morgan').setLevel(logging.ERROR)  # the `for … else` branch of _morgan only logs
+    try:
+        from rdkit import RDLogger
+        RDLogger.DisableLog('rdApp.*')
+    except Exception:  # noqa
+        pass
     k_streams(ctx)
     relational(ctx)
 
@@ -815,6 +820,51 @@ def ez_catalogue():
     return sorted(set(out))
 
 
+def oligomers(rng, k):
+    """Repeat-unit molecules: a terminal and an inner backbone atom of the same kind that see the same KINDS of neighbours in
+    different NUMBERS (terminal A(S)n-1, inner A(S)n-2), optionally as mixtures of two chain lengths; plus chains that differ
+    only in where the multiple bonds sit. Nothing but neighbour multiplicities / bond orders / distance along the chain tells
+    their atoms apart — the inputs on which an under-discriminating refinement shows as numbering dependence."""
+    centres = [('C', 4), ('N', 3), ('[Si]', 4), ('P', 3), ('B', 3), ('[N+]', 4), ('[Ge]', 4), ('[P+]', 4)]
+    subs = ['C', 'F', 'Cl', 'O', 'N', 'CC', 'C(F)(F)F', 'OC', 'Br', 'S', '[2H]', 'C#N']
+    links = ['', 'C', 'CC', 'O', 'CO', 'S', 'CCC', 'N', 'C=C', 'c1ccc(cc1)', 'C(=O)']
+    out = []
+
+    def chain(a, v, sub, link, units):
+        br = f'({sub})' * (v - 2)
+        return f'{sub}{a}{br}' + ''.join(f'{link}{a}{br}' for _ in range(units - 1)) + sub
+
+    for _ in range(k):
+        a, v = rng.choice(centres)
+        sub, link = rng.choice(subs), rng.choice(links)
+        units = rng.randint(2, 5)
+        t = chain(a, v, sub, link, units)
+        r = rng.random()
+        if r < 0.2:   # mixture of two chain lengths of the same family (component order)
+            t = t + '.' + chain(a, v, sub, link, units + rng.choice([-1, 1]) if units > 2 else units + 1)
+        elif r < 0.3:  # two different families side by side
+            a2, v2 = rng.choice(centres)
+            t = t + '.' + chain(a2, v2, rng.choice(subs), rng.choice(links), rng.randint(2, 4))
+        out.append(t)
+    # same atoms, different placement of the multiple bonds / branches along a chain
+    for _ in range(max(2, k // 4)):
+        n = rng.randint(4, 9)
+        bonds = [rng.choice(['', '', '=', '#']) for _ in range(n - 1)]
+        for i in range(1, n - 1):   # keep carbon valence <= 4
+            if {'=': 2, '#': 3, '': 1}[bonds[i - 1]] + {'=': 2, '#': 3, '': 1}[bonds[i]] > 4:
+                bonds[i] = ''
+        t = 'C' + ''.join(b + 'C' + ('(C)' if b == '' and rng.random() < 0.25 else '') for b in bonds)
+        out.append(t)
+    return out
+
+
+OLIGOMERS = ['CN(C)CCN(C)CCN(C)C', 'FC(F)(F)C(F)(F)C(F)(F)F', 'C[Si](C)(C)O[Si](C)(C)O[Si](C)(C)C', 'CC(C)CC(C)CC(C)C',
+             'CN(C)CCN(C)C', 'FC(F)(F)C(F)(F)F', 'CC(C)CC(C)C', 'CCCCOP(=O)(O)O.CCCCOP(=O)(O)OCCCC',
+             '[O-][N+](=O)C([N+](=O)[O-])C([N+](=O)[O-])[N+](=O)[O-]', 'OCC(O)C(O)C(O)CO', 'CC(C)(C)CC(C)(C)CC(C)(C)C',
+             'ClC(Cl)(Cl)C(Cl)(Cl)C(Cl)(Cl)C(Cl)(Cl)Cl', 'CP(C)CCP(C)CCP(C)C', 'COC(OC)C(OC)C(OC)OC',
+             'C[N+](C)(C)CC[N+](C)(C)CC[N+](C)(C)C', 'CB(C)OB(C)OB(C)C', 'CC=CC=CC', 'C=CCC=CC', 'C#CC=CC#C', 'CC#CC(C)C#CC']
+
+
 def isotope_decorations(mol, limit=3):
     """label ONE atom of each symmetry class with tabulated isotopes, always including the element's reference isotope
     (the one a writer prints as `[12C]` although it is 'the same' mass number as the unlabelled atom)"""
@@ -1000,7 +1050,8 @@ def relational_molecules(ctx):
     from chython import smiles
     rng = ctx.rng
     out = []
-    for s in molgen.HANDMADE + SYMMETRIC + STEREO_PAIRS + ISOTOPES + EXPLICIT_H_STEREO + ez_catalogue():
+    for s in molgen.HANDMADE + SYMMETRIC + STEREO_PAIRS + ISOTOPES + EXPLICIT_H_STEREO + ez_catalogue() + OLIGOMERS \
+            + oligomers(rng, 50 if ctx.quick else 400):
         m = molgen.parse(s)
         if m is not None:
             out.append((s, s, m))
@@ -1159,17 +1210,34 @@ def search(ctx):
     from .. import wire
     import time
     t_end = time.time() + (60 if ctx.quick else 600)
-    first = []
+    first, seen_first = [], set()
     for op, items in (_state.get('k_bad') or {}).items():
-        if op != 'order':
+        if op not in ('order', 'cmorgan'):
             continue
-        for what, line, exp, g in sorted(items, key=lambda t: len(t[1]))[:40]:
+        for what, line, exp, g in items:
             xs = list(map(int, line.split()[1:]))
             try:
-                first.append((what, None, view_to_mol(xs)))
+                m = view_to_mol(xs) if op == 'order' else sview_to_mol(xs)
+                key = str(m)
             except Exception:  # noqa
                 continue
-    cat = ISOTOPES + EXPLICIT_H_STEREO + ez_catalogue() + STEREO_PAIRS + SYMMETRIC + molgen.HANDMADE
+            if key in seen_first:
+                continue
+            seen_first.add(key)
+            # lead: the implementation puts in one class atoms that an independent colour refinement tells apart
+            try:
+                atoms, adj = const_graph(m)
+                wl = wl_classes(atoms, adj)
+                real = m.atoms_order
+                merged = len(set(wl.values())) - len(set(real.values()))
+            except Exception:  # noqa
+                merged = 0
+            first.append((merged, len(m), what if isinstance(what, str) else what[0], m))
+    first.sort(key=lambda t: (-t[0], t[1]))
+    ctx.notes.append(f'search: {len(first)} distinct molecules from disagreeing K cases, '
+                     f'{sum(1 for t in first if t[0] > 0)} of them with implementation classes coarser than an independent refinement')
+    first = [(w, None, m) for _, _, w, m in first[:150]]
+    cat = OLIGOMERS + oligomers(ctx.rng, 150) + ISOTOPES + EXPLICIT_H_STEREO + ez_catalogue() + STEREO_PAIRS + SYMMETRIC + molgen.HANDMADE
     deco = []
     for t in SYMMETRIC + molgen.HANDMADE:
         m = molgen.parse(t)
@@ -1193,6 +1261,20 @@ def search(ctx):
         relational(ctx, [(f'corpus[{i}]', smis[i], m)], nvar=6)
         if any(f.signature not in (KF_COMPONENT, KF_TIE) for f in ctx.failures[before:]):
             return
+
+
+def sview_to_mol(xs):
+    """molecule from the `cmorgan` wire (constitution only)"""
+    it = iter(xs)
+    n_atoms = next(it)
+    out = [n_atoms]
+    for _ in range(n_atoms):
+        n, z, iso, ch, rad, h, ring, st, deg = (next(it) for _ in range(9))
+        out += [n, z, iso, ch, rad, h, ring, deg]
+        for _ in range(deg):
+            k, o, bs = next(it), next(it), next(it)
+            out += [k, o]
+    return view_to_mol(out)
 
 
 def view_to_mol(xs):
